@@ -303,3 +303,95 @@ Definition starts_within (lim : N) (h : list rop) : list tkey := starts_within_r
 
 Definition is_start (o : rop) : bool :=
   match o with Track _ | TrackNX _ | Validate _ | ValidateStale _ => true | _ => false end.
+
+(* ------------------------------------------------ further observables *)
+(* What an operation makes the table do besides changing the two maps. *)
+Inductive event :=
+| EvNew (k : regkey)               (* registerForDetector(reg): announced to the detector *)
+| EvUpdate (k : regkey)            (* updateInDetector(reg): lifetime extended in the detector *)
+| EvExpired (total nvalid : N).    (* removeOldRegistrations' results (AddExpiredRegs / Stat().ExpireReg) *)
+
+Definition valid_at (s : st) (key : tkey) : bool :=
+  match get2 (decoys s) (fst key) (snd key) with Some true => true | _ => false end.
+
+Definition emits (s : st) (o : rop) : list event :=
+  match o with
+  | Validate k => if enabled (k_tr k) && negb (valid s k) then [EvNew k] else []
+  | ValidateStale k => if enabled (k_tr k) && negb (tracked s k) then [EvNew k] else []
+  | MarkActive k => if enabled (k_tr k) && has_timeout s k then [EvUpdate k] else []
+  | Sweep => [EvExpired (N.of_nat (length (get_expired s)))
+                        (N.of_nat (length (filter (valid_at s) (get_expired s))))]
+  | _ => []
+  end.
+
+(* DecoyRegistration.regCount, kept beside the table: 1 when a registration is newly tracked,
+   +1 for every duplicate seen by track()/TrackIfNotExists, gone with the registration. *)
+Record xst := { x_base : st; x_count : list (tkey * N) }.
+Definition xinit : xst := {| x_base := init; x_count := [] |}.
+
+Definition bump (k : regkey) (s : st) (c : list (tkey * N)) : list (tkey * N) :=
+  if enabled (k_tr k) then
+    if tracked s k then
+      aput tkey_eqb (tkey_of k) (match aget tkey_eqb (tkey_of k) c with Some n => n + 1 | None => 1 end) c
+    else aput tkey_eqb (tkey_of k) 1 c
+  else c.
+
+Definition first_only (k : regkey) (s : st) (c : list (tkey * N)) : list (tkey * N) :=
+  if enabled (k_tr k) && negb (tracked s k) then aput tkey_eqb (tkey_of k) 1 c else c.
+
+Definition xstep (x : xst) (o : rop) : xst :=
+  let s := x_base x in
+  let s' := step s o in
+  {| x_base := s';
+     x_count := match o with
+                | Track k | TrackNX k => bump k s (x_count x)
+                | Validate k | ValidateStale k => first_only k s (x_count x)
+                | Sweep => filter (fun kc => is_some (aget tkey_eqb (fst kc) (timeouts s'))) (x_count x)
+                | _ => x_count x
+                end |}.
+
+Definition xrun (h : list rop) : xst := fold_left xstep h xinit.
+
+Definition regcount (x : xst) (k : regkey) : N :=
+  if tracked (x_base x) k then
+    match aget tkey_eqb (tkey_of k) (x_count x) with Some n => n | None => 0 end
+  else 0.
+
+(* ghost counterparts, functions of the history alone *)
+Definition gcstep (k : regkey) (lc : life * N) (o : rop) : life * N :=
+  let l' := gstep k (fst lc) o in
+  (l', match l' with
+       | None => 0
+       | Some _ =>
+           match fst lc with
+           | None => 1
+           | Some _ => match o with
+                       | Track k' | TrackNX k' => if regkey_eqb k k' then snd lc + 1 else snd lc
+                       | _ => snd lc
+                       end
+           end
+       end).
+Definition gcount (h : list rop) (k : regkey) : N := snd (fold_left (gcstep k) h (None, 0)).
+
+(* validated during the current life *)
+Definition gvstep (k : regkey) (lv : life * bool) (o : rop) : life * bool :=
+  let l' := gstep k (fst lv) o in
+  (l', match l' with
+       | None => false
+       | Some _ =>
+           match o with
+           | Validate k' => if regkey_eqb k k' then true else match fst lv with Some _ => snd lv | None => false end
+           | ValidateStale k' => match fst lv with Some _ => snd lv | None => regkey_eqb k k' end
+           | _ => match fst lv with Some _ => snd lv | None => false end
+           end
+       end).
+Definition gvalid (h : list rop) (k : regkey) : bool := snd (fold_left (gvstep k) h (None, false)).
+
+(* the events the specification expects from operation o after history h *)
+Definition gemits (h : list rop) (o : rop) : list event :=
+  match o with
+  | Validate k => if enabled (k_tr k) && negb (gvalid h k) then [EvNew k] else []
+  | ValidateStale k => if enabled (k_tr k) && negb (is_some (ghost h k)) then [EvNew k] else []
+  | MarkActive k => if is_some (ghost h k) then [EvUpdate k] else []
+  | _ => []
+  end.
